@@ -100,7 +100,7 @@ PROPS = {
     "C17": dict(theorems=["C17_tests_denotation", "C17_pts_denotation", "C17_not_negates_next", "C17_negated_test_semantics", "C17_not_is_consumed",
                           "C17_last_call_wins", "C17_options_are_local"],
                 cone=["Model/Builder.v", "Proofs/BuilderP.v", "Model/Engine.v", "Proofs/Refine.v"],
-                rule="random chains (1-8 calls) of Not / built-in tests / TestFunc / Required / Optional / Default / Catch / PostTransform with random Message, IssueCode and IssuePath options on String and Int schemas (double and dangling Not, Not before non-test calls), executed on random subjects in Parse and Validate; the Coq side folds the same chain into a schema and runs the engine; plus a shared-schema-object probe against independent copies; distinct = distinct (call-kind sequence, outcome)",
+                rule="random chains (1-8 calls) of Not / built-in tests / TestFunc / Required / Optional / Default / Catch / PostTransform with random Message, IssueCode and IssuePath options on String, Int, Int64, Float64, Bool and Time schemas (each schema type has its own copy of the builder methods; double and dangling Not, Not before non-test calls, the same modifier twice with and without options), executed on random subjects in Parse and Validate; the Coq side folds the same chain into a schema and runs the engine; plus a shared-schema-object probe against independent copies; distinct = distinct (call-kind sequence, outcome)",
                 families=[dict(name="builder", family="builder", profile="default", quick=1500, thorough=30000, shard=150,
                                tags=["nil", "issues", "dtype", "params", "msg", "dest", "calls", "panic", "share"])]),
     "C18": dict(theorems=["C18_float_to_int_exact", "C18_nan_inf_rejected", "C18_float_out_of_range_rejected", "C18_int_from_int_exact", "C18_int_in_range",
